@@ -113,6 +113,20 @@ def r13b(ctx, cls, send, recv):
         else:
             ok_all = False
             ctx.bad('R13b', key + ':sqn', '%s no longer includes the sequence number %s in the MAC (replayed / reordered messages would verify)' % (role, sq), f)
+        # unambiguous MAC input: line and sequence number are both variable-length base-62 text, so the
+        # delimiter has to stand between them -- the sequence number is the last piece, after the
+        # delimiter-terminated line
+        pos = a._rpo_pos()
+        wso = sorted(ws, key=lambda x: pos.get(x[0], 0))
+        if has_sqn and len(wso) >= 2:
+            last_is_sqn = depends_on_member(a, wso[-1][1], sq)
+            delim_before = any((T.is_int(ln, 1) and T.is_int(d, 10)) or T.contains(d, lambda z: z == ('int', 10)) for nid, d, ln, line in wso[:-1])
+            if last_is_sqn and delim_before:
+                ctx.ok('R13b', key + ':order', 'the MAC input is line, delimiter, sequence number (unambiguous)', f)
+            else:
+                ok_all = False
+                ctx.bad('R13b', key + ':order', 'the sequence number is not MACed after the delimiter-terminated line: line and sequence number are both '
+                        'base-62 text, without the delimiter between them different (line, number) pairs have the same MAC input', f)
         # counter updates
         upd = [(nid, ev) for nid, ev in a.all_events('write') if ev[1][0] == 'e' and ev[1][1] == ('m', sq)]
         if role == 'receiver':
